@@ -26,3 +26,21 @@ Theorem refs_stay_valid : forall atomic objs m cs m' ss,
   NoDup (map c_ref cs) -> valid objs m -> apply_pack atomic objs m cs = (m', ss) -> valid objs m'.
 Proof. exact refs_stay_valid_lemma. Qed.
 Print Assumptions refs_stay_valid.
+
+(* ---------- the status report on the wire (Model/ReportStatus.v) ---------- *)
+From DV Require Import Bytes PackedFile Caps CapsP ReportStatus ReportStatusP.
+
+(* what ReceivePackHandler._report_status writes for an unpack result and a list of ref statuses is read back by the
+   client's ReportStatusParser as exactly that list — for ref names without white space and NUL, and messages that are not
+   empty, hold no line feed and neither start nor end with white space (every message dulwich's server produces) *)
+Theorem status_report_roundtrip : forall unpack refs,
+  msg_ok unpack = true -> Forall entry_ok refs ->
+  parse_report (report unpack refs) = Some (UNPACK_ ++ [SP] ++ unpack, refs).
+Proof. exact report_roundtrip_lemma. Qed.
+Print Assumptions status_report_roundtrip.
+
+(* the side condition on messages is needed: an "ng" line whose message is empty makes check() raise ValueError *)
+Theorem empty_failure_message_roundtrip_refuted : forall ref,
+  clean ref /\ ref <> [] -> parse_status (status_line ref (Some [])) = PCrash.
+Proof. exact ng_without_message_crashes. Qed.
+Print Assumptions empty_failure_message_roundtrip_refuted.
